@@ -176,7 +176,7 @@ _t('C09', 'Theorems: var_is_free f x holds iff x has an occurrence not enclosed 
 NOTE_CLI = ('Trusted: Coq kernel; extraction + ocamlopt; glue. Modelled, not verified: clap/argfile/wild argument parsing, file and pipe I/O, text padding of the table '
             '(rows are parsed back by splitting on "|"), the timing output of -b. The binary is built from /repo (debug profile, overflow checks on) and run as a child process; '
             'rows and -v lines are compared as sets. Run-time phenomena no Gallina model exhibits (stack depth, allocation failure, closed stdout) are covered only by the robustness runs.')
-_t('C10', 'Theorems: for an ordered diagram whose support lies in the duplicate-free column list, the printer model returns rows such that every assignment matches exactly one row and that row carries beval (C10_partition; '
+_t('C10', 'Theorem C10_cli (end to end over the pipeline model): whenever cli prints, there are a duplicate-free column list (one header name per free variable) and a row list such that every total assignment matches exactly one row, whose result is the value of the printed diagram; the printed rows are exactly those the filter keeps and the -v lines exactly the true rows; C10_bench: any repetition count >= 1 yields the single evaluation. Underlying theorems: for an ordered diagram whose support lies in the duplicate-free column list, the printer model returns rows such that every assignment matches exactly one row and that row carries beval (C10_partition; '
           'no lookup failure, i.e. no panic); the filtered table is the filter of the full table (C10_filter), the -v lines are the true rows (C10_vars). The pipeline that produces header, columns and the printed diagram (tokens -> vars -> free_vars -> eval -> retain -> model) is the Gallina function cli. '
           'Correspondence: the real binary against cli on the option grid (15 filter spellings, 3 channels, -c, -m, -b), all small orderings, random formulas/options/ordering files: header, row set, -v set.', NOTE_CLI)
 _t('C11', 'Theorem C11_meaning: evaluating a formula renamed by any id map with a left inverse yields a diagram that denotes the same function of the renamed variables (so a different ordering changes shape, not meaning). '
